@@ -550,6 +550,26 @@ def seed_variants(pid, sources):
         yield name, s2
 
 
+def refactor_variants(sources):
+    """behaviour-preserving rewrites of whole modules written by independent sub-agents (preserving/<name>/patch.diff): each must be judged
+    exactly like the unchanged tree -- exit 0"""
+    import glob
+    here = os.path.dirname(os.path.dirname(os.path.abspath(__file__)))
+    for d in sorted(glob.glob(os.path.join(here, 'preserving', '*'))):
+        pf = os.path.join(d, 'patch.diff')
+        if not os.path.isfile(pf): continue
+        yield 'R:' + os.path.basename(d), apply_unified_diff(sources, open(pf).read())
+
+
+def _one_refactor(args):
+    pid, name, s2 = args
+    if s2 is None: return (pid, name, 'skipped', 'patch does not apply to the current tree')
+    rep = _run_rules(pid, s2)
+    code, msgs = rep.judge()
+    if code == 0: return (pid, name, 'silent', '')
+    return (pid, name, 'FALSE-ALARM' if code == 1 else 'UNDECIDED', (msgs or [''])[0][:200])
+
+
 def _one_seed(args):
     pid, name, s2 = args
     if s2 is None: return (pid, name, 'skipped', 'patch does not apply to the current tree')
@@ -634,6 +654,9 @@ def run_selftest(pid, repo_src, rep, jobs=None):
         bres = list(ex.map(_one_breaking, btasks))
         pres = list(ex.map(_one_preserving, ptasks))
         sres = list(ex.map(_one_seed, stasks))
+        rres = list(ex.map(_one_refactor, [(pid, n, s2) for n, s2 in refactor_variants(sources)]))
+    pres += [r for r in rres if r[2] != 'skipped']
+    rep.extra['selftest_refactors_skipped'] = [r[1] for r in rres if r[2] == 'skipped']
     bres += sres
     stats = {'breaking': len(bres), 'caught': sum(1 for r in bres if r[2] in ('caught', 'caught-elsewhere')), 'skipped': sum(1 for r in bres if r[2] == 'skipped'),
              'undecided': sum(1 for r in bres if r[2] == 'undecided'), 'missed': sum(1 for r in bres if r[2] == 'MISSED'),
